@@ -806,7 +806,9 @@ func c03(c *h.Ctx) {
 			}
 			return "ok"
 		})
-		c.Hold(line == "err", "decode_never_panics", "rtmp.dispatch _ 20 0200077075626c697368000000000000000000", line, "err")
+		in := "rtmp.dispatch _ 20 0200077075626c697368000000000000000000"
+		c.Hold(line != "panic", "decode_never_panics", in, line, "ok|err")
+		c.Eq("dispatch", in, line+" _", c.O.Call("rtmp.dispatch", "_", "20", "0200077075626c697368000000000000000000"))
 		c.Case("corpus/F20", "wire", true)
 	}
 
